@@ -82,6 +82,7 @@ for _tf in _TFS:
 LOOPS = {
     (CM + "collapse_candles", 0): LoopSpec(
         invariant=COLLAPSE_INV,
+        decreases="LLen(self.candles)",  # every iteration pops one raw candle
         types={"candles_": "hlist", "candle": "hcandle", "prev_candle": "hcandle", "start_time": "datetime", "end_time": "datetime", "next_candle": "datetime"},
         modifies_heap=["self.candles", "cs"],
         write_frame=("cs", ["candle", "prev_candle"]),
@@ -131,6 +132,7 @@ LOOPS[(CM + "trim_candles", 0)] = LoopSpec(
         "latest-is-the-newest-timestamp": f"Sec(latest) == {NEWEST}",
     },
     modifies_heap=["self.candles"],
+    decreases="LLen(self.candles)",  # every iteration pops the oldest candle
 )
 
 
